@@ -155,6 +155,26 @@ def _ts(t):
     return int(round((t - vclock.explicit_time(0)).total_seconds()))
 
 
+DECOY_STREAM = [
+    dict(test_id="dz", test_status="inprogress", timestamp=vclock.explicit_time(5)),
+    dict(test_id="dz", file_name="log", file_bytes=b"decoy", mime_type="text/plain"),
+    dict(test_id="dy", route_code="rz", test_status="fail", test_tags={"dk"}),
+    dict(test_id="dz", test_status="success"),
+    dict(test_id="dw", test_status="inprogress"),
+]
+
+
+def _decoy_consumer(name):
+    if name == "StreamToDict":
+        got = []
+        return StreamToDict(got.append), (lambda: [_norm_dict(d) for d in got])
+    if name == "StreamSummary":
+        sm = StreamSummary()
+        return sm, (lambda: (sm.testsRun, sorted(c.id() for c, _ in sm.errors + sm.failures), len(sm.skipped), sm.wasSuccessful()))
+    w = World()
+    return StreamToExtendedDecorator(TExt(w, "decoy-ext")), (lambda: [(e.method, e.test_id) for e in w.events])
+
+
 def run_one(tape, opts):
     out = Outcome()
     scripts = gen(tape, big=opts.get("tier") == "thorough")
@@ -174,17 +194,39 @@ def run_one(tape, opts):
     target = TExt(world, "ext")
     to_ext = StreamToExtendedDecorator(target)
     consumers = (("StreamToDict", to_dict), ("StreamSummary", summary), ("StreamToExtendedDecorator", to_ext))
+    # a second consumer of the same class, alive at the same time and fed its own events in between
+    with_decoy = tape.chance("config", 1, 3, "decoy-consumer")
     for name, c in consumers:
         try:
+            decoy = view = reference = None
+            if with_decoy:
+                alone, view_alone = _decoy_consumer(name)
+                alone.startTestRun()
+                for dev in DECOY_STREAM:
+                    alone.status(**dev)
+                alone.stopTestRun()
+                reference = view_alone()
+                decoy, view = _decoy_consumer(name)
+                decoy.startTestRun()
             c.startTestRun()
-            for ev in stream:
+            for i, ev in enumerate(stream):
                 kw = dict(ev)
                 if kw.get("test_tags") is not None:
                     kw["test_tags"] = set(kw["test_tags"])
                 if kw.get("timestamp") is not None:
                     kw["timestamp"] = vclock.explicit_time(kw["timestamp"])
                 c.status(**kw)
+                if decoy is not None and i < len(DECOY_STREAM):
+                    decoy.status(**DECOY_STREAM[i])
+            if decoy is not None:
+                for dev in DECOY_STREAM[len(stream):]:
+                    decoy.status(**dev)
             c.stopTestRun()
+            if decoy is not None:
+                decoy.stopTestRun()
+                if view() != reference:
+                    out.violate("consumers-interfere", name, f"a second {name} fed {DECOY_STREAM} reported {view()} next to the main one, {reference} alone")
+                out.probe("decoy-consumer")
         except Exception as e:
             import traceback
             out.violate("consumer-raised", f"{name}:{type(e).__name__}", traceback.format_exc()[-1200:])
